@@ -467,6 +467,29 @@ def pingAccept (L : Layout) (reqId : Nat) (d : Nat × Bytes) : Option (Nat × Pa
 def ping (L : Layout) (reqId : Nat) (ds : List (Nat × Bytes)) : List (Nat × Packet) :=
   ds.filterMap (pingAccept L reqId)
 
+/-- one turn of the receive loop of `ping_qmi_contexts`: the reading of `time.monotonic()` at the top of the
+loop (in clock ticks) and what `selector.select(wait_until - t_now)` then reports — a datagram ready on the
+socket, or nothing (the time-out elapsed, or a spurious wake-up) -/
+structure Turn where
+  t : Nat
+  ready : Option (Nat × Bytes)
+  deriving Repr
+
+/-- `ping_qmi_contexts`, the loop with its clock: `while True: t_now = monotonic(); if t_now >= wait_until: break; …`.
+The environment is the list of turns; the loop stops at the first turn whose clock reading has reached the deadline
+and looks at nothing after it. -/
+def pingLoop (L : Layout) (reqId deadline : Nat) : List Turn → List (Nat × Packet)
+  | [] => []
+  | u :: rest =>
+    if deadline ≤ u.t then []
+    else (match u.ready with
+          | some d => (pingAccept L reqId d).toList
+          | none => []) ++ pingLoop L reqId deadline rest
+
+/-- the datagrams the loop takes from the socket: those of the turns before the first expired one -/
+def received (deadline : Nat) (turns : List Turn) : List (Nat × Bytes) :=
+  (turns.takeWhile (fun u => decide (u.t < deadline))).filterMap (·.ready)
+
 /-- one entry of the list returned by `discover_peer_contexts`: name, sender address, port -/
 structure Peer where
   name : List Char
@@ -488,5 +511,9 @@ def discoverLoop (self : List Char) : List (Nat × Packet) → Except PyExc (Lis
 
 def discover (L : Layout) (self : List Char) (reqId : Nat) (ds : List (Nat × Bytes)) : Except PyExc (List Peer) :=
   discoverLoop self (ping L reqId ds)
+
+/-- `discover_peer_contexts` with the clock: `wait_until = monotonic() + timeout` (first reading `t0`) -/
+def discoverTimed (L : Layout) (self : List Char) (reqId t0 timeout : Nat) (turns : List Turn) : Except PyExc (List Peer) :=
+  discoverLoop self (pingLoop L reqId (t0 + timeout) turns)
 
 end QmiModel.Discovery
